@@ -1103,6 +1103,24 @@ class C11(SimSpec):
             sc["user"] = {"try_submit": rng.choice([0, 1, 2]), "show_status": 0}
             sc["enum"] = {"base": f"sq{q}", "ord": -1, "ref": False, "kind": "squeue_transient"}
             out.append(sim_task(sc, s, len(out)))
+        # pipelines: a `jade pipeline submit-next-stage` command (the submitter round that configures and submits the next stage) is
+        # hit by an error at its k-th file operation; the user runs the same command again (twice) - no job of that stage may be
+        # handed to the HPC twice
+        c15 = C15()
+        for q in range({"quick": 24, "thorough": 300}[tier]):
+            s = sub_seed(seed, q, "C11pipe")
+            rng = random.Random(s)
+            sc = scenario.normalize(c15.gen(rng, 9, tier))  # index 9 selects the error-and-retry family of C15's generator
+            while len(sc["stages"]) < 2:
+                sc = scenario.normalize(c15.gen(rng, 9, tier))
+            sc["faults"] = {"crash_cmd": ["submit-next-stage", rng.randint(1, 110), rng.choice(["raise", "raise", "die"])]}
+            sc["retry_next_stage"] = True
+            sc["c11"] = True
+            sc["enum"] = {"base": f"pipe{q}", "ord": -1, "ref": False, "kind": "pipeline_next_stage"}
+            t = sim_task(sc, s, len(out))
+            t["args"]["cls"] = "sim.pipe:PipeSim"
+            t["args"]["prepare"] = "sim.pipe:prepare"
+            out.append(t)
         return out
 
     def second_phase(self, tier, seed, tasks, results):
@@ -1271,6 +1289,13 @@ class C15(SimSpec):
             scen["squeue_vocab"] = "full"
             scen["user"] = {"try_submit": rng.choice([2, 3, 4]), "show_status": 0, "p": rng.choice([0.03, 0.08]), "late_try": 2}
             scen["policy"]["finish_w"] = rng.choice([0.02, 0.05])
+        if i % 10 == 9 and ns >= 2:
+            # an error (EDQUOT at one of its writes) hits a `jade pipeline submit-next-stage` command somewhere between its first and
+            # its last file operation; the user then runs the same command again: a stage is never configured twice
+            scen["faults"] = {"crash_cmd": ["submit-next-stage", rng.randint(1, 110), "raise"]}
+            scen["retry_next_stage"] = True
+            scen.pop("resubmit_stage", None)
+            scen["mode"] = None
         if i % 10 == 7 and ns >= 2:
             # every sbatch of one stage is rejected: that stage completes synchronously with an error inside the process that
             # submitted it, and the following stages are submitted from nested processes
@@ -1305,6 +1330,7 @@ class C15(SimSpec):
         c["pipelines_completed"] = sum(1 for r in ok if r.get("pipeline_complete"))
         c["stages_per_pipeline"] = hist(len(t["args"]["scen"]["stages"]) for t in tasks)
         c["pipelines_with_a_stage_resubmitted_after_completion"] = sum(1 for r in ok if r.get("stage_resubmitted"))
+        c["submit_next_stage_commands_hit_by_an_error_and_retried"] = total(ok, "next_stage_retries")
         c["pipelines_with_a_killed_node"] = sum(1 for r in ok if (r.get("killed_nodes") or 0) >= 1)
         c["pipelines_with_a_stage_rejected_by_sbatch"] = sum(1 for t in tasks if (t["args"]["scen"].get("faults") or {}).get("sbatch_fail_re"))
         c["nonzero_stage_return_codes_seen"] = total(ok, "nonzero_stage_rcs")
